@@ -27,7 +27,7 @@ impl Matcher {
                     max_pos = i as u32;
                     max_score = score;
                     // can't get better than this
-                    if bonus >= self.config.bonus_boundary_white {
+                    if bonus >= self.config.max_boundary_bonus() {
                         break;
                     }
                 }
@@ -45,7 +45,7 @@ impl Matcher {
                     max_pos = i as u32;
                     max_score = score;
                     // can't get better than this
-                    if bonus >= self.config.bonus_boundary_white {
+                    if bonus >= self.config.max_boundary_bonus() {
                         break;
                     }
                 }
@@ -88,7 +88,7 @@ impl Matcher {
                 max_pos = i;
                 max_score = score;
                 // can't get better than this
-                if bonus >= self.config.bonus_boundary_white {
+                if bonus >= self.config.max_boundary_bonus() {
                     break;
                 }
             }
@@ -163,7 +163,7 @@ impl Matcher {
                     max_pos = i;
                     max_score = score;
                     // can't get better than this
-                    if bonus >= self.config.bonus_boundary_white {
+                    if bonus >= self.config.max_boundary_bonus() {
                         break;
                     }
                 }
@@ -208,7 +208,7 @@ impl Matcher {
                 max_pos = i as u32;
                 max_score = score;
                 // can't get better than this
-                if bonus >= self.config.bonus_boundary_white {
+                if bonus >= self.config.max_boundary_bonus() {
                     break;
                 }
             }
@@ -256,7 +256,7 @@ impl Matcher {
                 max_pos = i;
                 max_score = score;
                 // can't get better than this
-                if bonus >= self.config.bonus_boundary_white {
+                if bonus >= self.config.max_boundary_bonus() {
                     break;
                 }
             }
